@@ -27,6 +27,7 @@ func runC07(ctx *Ctx) {
 	ruleAddRefOwnership(ctx, "C07-R4")
 	ruleTeardown(ctx, "C07-R5")
 	ruleFinishAccounting(ctx, "C07-R6")
+	ruleCountingPaths(ctx, "C07-R7")
 	r := ctx.Rep
 	r.Floor("C07-R1", 8)
 	r.Floor("C07-R2", 15)
@@ -34,6 +35,7 @@ func runC07(ctx *Ctx) {
 	r.Floor("C07-R4", 5)
 	r.Floor("C07-R5", 8)
 	r.Floor("C07-R6", 2)
+	r.Floor("C07-R7", 2)
 }
 
 func ruleRefWriters(ctx *Ctx, rule string) {
@@ -608,5 +610,60 @@ func ruleFinishAccounting(ctx *Ctx, rule string) {
 		if !found {
 			r.Violation(rule, "answer.destroy | exports released only under releaseResultCapsFlag", q.Pos(f.Pos()), "destroy never releases export references")
 		}
+	}
+}
+
+// ruleCountingPaths is C07-R7: (a) every path through addImport that hands
+// out a client counts the received wire reference; (b) every path through
+// handleFinish that leaves the answer in the table consults the message's
+// releaseResultCaps.
+func ruleCountingPaths(ctx *Ctx, rule string) {
+	a := lockAnalysis(ctx)
+	if a == nil {
+		return
+	}
+	wr := mustField(ctx, rule, "rpc", "impent", "wireRefs")
+	if u := mustUnit(ctx, a, rule, "rpc.(*Conn).addImport"); u != nil && wr != nil {
+		info := u.Pkg.TypesInfo
+		isCount := func(n ast.Node) bool {
+			switch x := n.(type) {
+			case *ast.IncDecStmt:
+				return x.Tok == token.INC && fieldOfSel(info, x.X) == wr
+			case *ast.KeyValueExpr:
+				if k, ok := x.Key.(*ast.Ident); ok && info.Uses[k] == types.Object(wr) {
+					return true
+				}
+			}
+			return false
+		}
+		pathCheck(ctx, a, rule, "addImport | every returned client counted one wire reference", u, u.Entry(), u.Pos, isCount, nil,
+			"ent.wireRefs++ (or wireRefs: 1 for a new entry): a received descriptor that is not counted makes the eventual Release too small and the peer leaks the export")
+	}
+	if u := mustUnit(ctx, a, rule, "rpc.(*Conn).handleFinish"); u != nil {
+		info := u.Pkg.TypesInfo
+		var param types.Object
+		if u.Type.Params != nil {
+			for _, fl := range u.Type.Params.List {
+				for _, nm := range fl.Names {
+					if nm.Name == "releaseResultCaps" {
+						param = info.Defs[nm]
+					}
+				}
+			}
+		}
+		if param == nil {
+			ctx.Rep.Fail("%s: handleFinish has no releaseResultCaps parameter", rule)
+			return
+		}
+		isTest := func(n ast.Node) bool {
+			id, ok := n.(*ast.Ident)
+			return ok && info.Uses[id] == param
+		}
+		isProtocolError := func(n ast.Node) bool {
+			rs, ok := n.(*ast.ReturnStmt)
+			return ok && len(rs.Results) == 1 && !isNil(rs.Results[0])
+		}
+		pathCheck(ctx, a, rule, "handleFinish | releaseResultCaps consulted on every accepted Finish", u, u.Entry(), u.Pos, isTest, isProtocolError,
+			"a test of releaseResultCaps: a Finish that arrives before the Return must still record that the peer gave up the result capabilities")
 	}
 }
